@@ -468,6 +468,8 @@ func installSeams() (restore func()) {
 			return err
 		},
 		MkDir: func(path string) error {
+			gateAt("pre-mkfam")
+			defer gateAt("post-mkfam")
 			findSession(path).pre()
 			existed := exists(path)
 			err := cur.MkDir(path)
@@ -482,6 +484,7 @@ func installSeams() (restore func()) {
 			return err
 		},
 		EncodeToml: func(fileName string, v interface{}) error {
+			gateAt("pre-opts")
 			findSession(fileName).pre()
 			err := cur.EncodeToml(fileName, v)
 			if s := findSession(fileName); s != nil {
@@ -878,6 +881,7 @@ type hist struct {
 	noImages bool   // bulk phase of a directed scenario: no crash images (the FS operations are still traced)
 	probeFam string // while the images of a createfam are checked: the family being created ...
 	probeThr int    // ... and its CompactThreshold
+	via      map[string]kv.Family // flushes of this family go through this handle (a creator's own handle) instead of GetFamily
 	scripted bool   // a directed scenario: no random deaths
 	forceDie string // die once at the first image whose previous operation has this kind (inside the next op that has one)
 }
@@ -1057,6 +1061,10 @@ func (h *hist) checkImages(opDesc string, ops []fsop, before, after string, pris
 		prev := im.prev
 		if im.opIdx == 0 {
 			prev = "start"
+		}
+		if im.extra && im.extraKind == "untraced-fs-change" {
+			// the directory changed between these two traced operations through a path no I/O seam reports
+			next = "[untraced directory change]>" + next
 		}
 		if im.extra && im.extraKind != "" {
 			h.c.Branch("point:" + im.extraKind)
@@ -1389,6 +1397,9 @@ func (h *hist) doCreateFamily(name string, thr int) {
 func (h *hist) doFlushStart(name string, seqs, kvs [][2]int64) {
 	h.runOp("fstart", true, func() (string, string, bool) {
 		f := h.store.GetFamily(name)
+		if v, ok := h.via[name]; ok && v != nil {
+			f = v
+		}
 		fl := f.NewFlusher()
 		for _, s := range seqs {
 			fl.Sequence(int32(s[0]), s[1])
@@ -1812,7 +1823,7 @@ func runCase(c *core.Ctx, i int, maxOps int) error {
 }
 
 // nScenarios directed histories run first in every seed (values are still drawn from the case's PRNG).
-const nScenarios = 6
+const nScenarios = 8
 
 func (h *hist) randKVs(n int) [][2]int64 {
 	var kvs [][2]int64
@@ -1866,9 +1877,42 @@ func runScenario(h *hist, which int) {
 		})
 	}
 	thr := 2
+	if which == 7 {
+		twoObjectsWitness(h)
+		return
+	}
 	open()
 	step(func() { h.doCreateFamily("10", thr) })
 	switch which {
+	case 6:
+		// concurrent creators of one new family, the first one parked at each of its file-system seams in turn;
+		// then flushes through BOTH handles (start, commit: all crash images), compaction, close, reopen
+		h.c.Branch("scenario:concurrent-creators")
+		step(func() { h.flushNow("10", true) })
+		for i, point := range []string{"pre-opts", "pre-mkfam", "post-mkfam"} {
+			name := []string{"11", "12", "13"}[i]
+			var hA, hB kv.Family
+			step(func() { hA, hB = h.doRaceCreate(name, 1+i, point) })
+			for _, via := range []kv.Family{hA, hB} {
+				via := via
+				step(func() {
+					if via == nil {
+						return
+					}
+					h.via = map[string]kv.Family{name: via}
+					h.flushNow(name, true)
+					h.via = nil
+				})
+			}
+			h.via = nil
+		}
+		step(func() { h.doCompact("11") })
+		step(func() { h.doCompact("12") })
+		closeS()
+		open()
+		step(func() { h.flushNow("12", false) })
+		closeS()
+		open()
 	case 0:
 		h.c.Branch("scenario:idle-session-then-open")
 		step(func() { h.flushNow("10", true) })
